@@ -201,6 +201,6 @@ def prop_step(case, ctx):
 
 
 SUBCHECKS = [
-    Sub("orthogonalize", prop_orth, strategy=cases, quick=100, thorough=1500),
-    Sub("single_step", prop_step, strategy=cases, quick=60, thorough=800),
+    Sub("orthogonalize", prop_orth, strategy=cases, quick=300, thorough=2500),
+    Sub("single_step", prop_step, strategy=cases, quick=150, thorough=1500),
 ]
